@@ -691,6 +691,9 @@ def run(rep, progs, tier):
         else:
             rep.check(not r[0], "C16.enums", cfg + "/tag names decode to the tag of that name", r[0][0][0] if r[0] else "mpd_client/src/tag.rs",
                       "; ".join(m for _, m in r[0]), detail={"named_tags": r[1]})
+        # grouped / list decoders tell tags apart: only by name (C20's rule on tag comparators, decided here for C16's clause)
+        from .C20 import comparators_rule
+        comparators_rule(rep, prog, cfg, rule="C16.enums")
         enums_rule(rep, prog, cfg)
         pairs_rule(rep, prog, cfg)
         key_guard_rule(rep, prog, cfg)
